@@ -22,3 +22,4 @@ package agent
 //@     modifies elems(b)
 //@     invariant read <= size && len(b) == int(size) && 0 <= read
 //@     invariant samearray(b, before(b)) && (samearray(b, old(*buf)[:len(b)]) || newinloop(b) || fresh(&b[0]))
+
